@@ -512,7 +512,8 @@ def judge(facts: Facts, act, counts: Counter, depth: int = 0):
                         want, cancel = _exact(e, vals)
                         got = to_x(v)
                         if not want.same(got, zero_sign=not cancel):
-                            return ({'fact': 'round_is_identity', 'node': type(e).__name__, 'miss': 'changed',
+                            kind = 'zero-sign' if (want.iszero and got.iszero) else 'value'
+                            return ({'fact': 'round_is_identity', 'node': type(e).__name__, 'miss': 'changed:' + kind,
                                      'scope': idc},
                                     f'`{e.format()}`: round_is_identity is True under {idc} but operands '
                                     f'{[str(x) for x in vals]} give {got}, exact result {want}')
